@@ -245,14 +245,46 @@ class Check(Property):
         u1.add_context(ctx)
         with u1.context("c12shared", n=3):
             u1.Quantity(2, "m").to("s")
+        # re-entered without the parameter: the declared default applies and the rules (written on derived dimensions) still work
+        try:
+            with u1.context("c12shared"):
+                r1 = u1.Quantity(2, "m/s").to("g").magnitude
+            r2 = u1.Quantity(2, "m/s").to("g", "c12shared", n=5).magnitude
+            if (r1, r2) != (2.0, 10.0):
+                v.append(f"C12 a context entered with n=3, then without a parameter, then with n=5 converts 2 m/s to {r1} g and {r2} g; "
+                         f"its rule value * n gives 2 g and 10 g")
+        except Exception as exc:  # noqa: BLE001
+            v.append(f"C12 a context entered with a parameter and re-entered without one no longer converts: {type(exc).__name__}: {exc}")
         after = ([str(k) for k in ctx.funcs], dict(ctx.defaults), ctx.checked)
         if after != before:
             v.append(f"C12 [known finding F7] a Context shared between registries was modified by its first activation: "
                      f"transformation keys / defaults / checked {before} -> {after}")
         u2.add_context(ctx)
-        with u2.context("c12shared"):
-            if u2.Quantity(2, "m/s").to("g").magnitude != 2.0:
-                v.append("C12 the second registry converts differently through the shared context")
+        try:
+            with u2.context("c12shared"):
+                if u2.Quantity(2, "m/s").to("g").magnitude != 2.0:
+                    v.append("C12 the second registry converts differently through the shared context")
+        except Exception as exc:  # noqa: BLE001
+            v.append(f"C12 the shared context, after its use in one registry, does not convert in a second one: {type(exc).__name__}: {exc}")
+        # ... and when the two registries reduce the rule's dimensions differently, the shared object stops working in the second
+        ra = regs.fresh("float")
+        rb = pint.UnitRegistry(["meter = [length] = m", "second = [time] = s", "hertz = [frequency] = Hz"])
+        mk = lambda: pint.Context("c12x")                                                             # noqa: E731
+        shared, fresh_ = mk(), mk()
+        for c_ in (shared, fresh_):
+            c_.add_transformation("[length]", "[frequency]", lambda ureg, x: 3 * ureg.Hz / ureg.m * x)
+        try:
+            want = rb.Quantity(2.0, "m").to("Hz", fresh_).magnitude
+            ra.Quantity(2.0, "m").to("Hz", shared)
+            try:
+                got = rb.Quantity(2.0, "m").to("Hz", shared).magnitude
+            except Exception as exc:  # noqa: BLE001
+                got = type(exc).__name__
+            if got != want:
+                v.append(f"C12 [known finding F7] a Context used in a registry where [frequency] is 1/[time] and then in one where it is a base "
+                         f"dimension: 2 m -> Hz gives {got} there, an identical fresh context gives {want}")
+        except Exception as exc:  # noqa: BLE001
+            v.append(f"C12 shared-context probe raised {type(exc).__name__}: {exc}")
         return v
 
     def oracle(self, c):
